@@ -142,7 +142,8 @@ func (b *refSuiteBMC) handle(req []byte) []byte {
 // vSuiteRecords builds k well-formed records with arbitrary IDs and algorithm numbers;
 // shape[i]: 0 = standard with one integrity and one confidentiality algorithm (5 bytes),
 // 1 = OEM likewise (8 bytes), 2 = standard with two integrity algorithms and no
-// confidentiality algorithm (5 bytes), 3 = standard with authentication only (3 bytes).
+// confidentiality algorithm (5 bytes), 3 = standard with authentication only (3 bytes),
+// 4 = standard with one integrity and two confidentiality algorithms (6 bytes).
 func vSuiteRecords(shapes []int) []byte {
 	var d []byte
 	for _, s := range shapes {
@@ -156,18 +157,20 @@ func vSuiteRecords(shapes []int) []byte {
 			d = append(d, 0xC0, id, vByte()&0x3f, 0x40|vByte()&0x3f, 0x40|vByte()&0x3f)
 		case 3:
 			d = append(d, 0xC0, id, vByte()&0x3f)
+		case 4:
+			d = append(d, 0xC0, id, vByte()&0x3f, 0x40|vByte()&0x3f, 0x80|vByte()&0x3f, 0x80|vByte()&0x3f)
 		}
 	}
 	return d
 }
 
 var vShapeSets = [][]int{
-	{},              // 0 bytes: one request, empty list
-	{0},             // 5
-	{1, 1},          // 16: exact multiple, one extra request
-	{0, 2, 0, 3},    // 18: two chunks, a record split across them
-	{1, 1, 1, 1},    // 32: exact multiple of two chunks
-	{1, 0, 0, 3, 2}, // 26
+	{},                    // 0 bytes: one request, empty list
+	{0},                   // 5
+	{1, 1},                // 16: exact multiple, one extra request
+	{0, 2, 0, 3},          // 18: two chunks, a record split across them
+	{1, 1, 1, 1},          // 32: exact multiple of two chunks
+	{1, 0, 0, 3, 2},       // 26
 	{0, 0, 0, 0, 0, 0, 0}, // 35: three chunks
 }
 
@@ -193,3 +196,89 @@ func VerifC16_RetrieveSuites() {
 }
 
 var _ = iana.Enterprise(0)
+
+// C16 (termination): a BMC that never sends a short chunk. The list index is a 6-bit
+// field, so discovery must stop by itself after at most 64 requests (with a list or an
+// error), whatever the BMC does; the chunk is an arbitrary 16 bytes (not starting a record) repeated.
+func VerifC16_DiscoveryTerminates() {
+	ft := &vFakeTransport{}
+	s := vNewSessionless(ft)
+	chunk := vBytes(16)
+	// the request loop does not look at the content; keep the final parse short (what the
+	// parser does with arbitrary data is VerifC16_ParseRecords' subject)
+	vAssume(chunk[0]>>1 != 0x60)
+	requests := 0
+	ft.reply = func(attempt int, req []byte) ([]byte, error) {
+		requests++
+		vAssert(requests <= 64, "c16-discovery-stops-by-itself-after-at-most-64-requests")
+		if requests > 64 {
+			vEnd()
+		}
+		body := append([]byte{0x00, 0x0e}, chunk...)
+		return refSessionless(0x00, refBuildMsg(0x81, 0x07, 0, 0x20, 1, 0, 0x54, body)), nil
+	}
+	_, err := RetrieveSupportedCipherSuites(context.Background(), s)
+	vAssert(requests == 64, "?c16-all-64-list-indices-are-tried")
+	if err != nil {
+		vReached("?error")
+	} else {
+		vReached("?list")
+	}
+	vReached("end")
+}
+
+// C16 (longest lists): the list index is a 6-bit field, so a BMC can advertise up to
+// 64 chunks = 1024 bytes of record data. Lists of 1019 bytes (63 full chunks and a short
+// one) and of exactly 1024 bytes (64 full chunks: there is no further index to ask for)
+// must come back as the reference expansion after 64 requests with indices 0..63.
+func VerifC16_LongList() {
+	ft := &vFakeTransport{}
+	s := vNewSessionless(ft)
+	std := []int{202, 203}[vChoice(2)] // 5-byte records; three 3-byte records follow
+	var data []byte
+	for i := 0; i < std; i++ {
+		if i < 2 || i >= std-2 {
+			data = append(data, 0xC0, vByte(), vByte()&0x3f, 0x40|vByte()&0x3f, 0x80|vByte()&0x3f)
+		} else {
+			data = append(data, 0xC0, byte(i), 0x01, 0x41, 0x81)
+		}
+	}
+	for i := 0; i < 3; i++ {
+		data = append(data, 0xC0, vByte(), vByte()&0x3f)
+	}
+	bmc := &refSuiteBMC{data: data}
+	beyond := false
+	ft.reply = func(attempt int, req []byte) ([]byte, error) {
+		if bmc.requests >= 64 {
+			beyond = true
+			// a real BMC sees list index 0 again (the field is 6 bits wide)
+			r := &refSuiteBMC{data: data}
+			return r.handleIndex(req, 0), nil
+		}
+		return bmc.handle(req), nil
+	}
+	got, err := RetrieveSupportedCipherSuites(context.Background(), s)
+	want, ok := refParseSuites(data)
+	vAssert(ok, "c16-harness-data-well-formed")
+	vAssert(err == nil, "c16-discovery-succeeds-on-well-formed-data")
+	vAssert(bmc.indexOK, "c16-list-index-counts-up-from-zero")
+	if err == nil {
+		vAssert(vSameSuites(got, want), "c16-discovery-returns-the-reference-expansion")
+	}
+	vAssert(!beyond, "c16-no-request-beyond-list-index-63")
+	vReached("end")
+}
+
+// handleIndex serves the chunk at the given list index without checking the request's index.
+func (b *refSuiteBMC) handleIndex(req []byte, idx int) []byte {
+	lo := 16 * idx
+	hi := lo + 16
+	if lo > len(b.data) {
+		lo = len(b.data)
+	}
+	if hi > len(b.data) {
+		hi = len(b.data)
+	}
+	body := append([]byte{0x00, 0x0e}, b.data[lo:hi]...)
+	return refSessionless(0x00, refBuildMsg(0x81, 0x07, 0, 0x20, 1, 0, 0x54, body))
+}
